@@ -64,6 +64,23 @@ let cmd_hist (x : sx) : sx =
       L [L (List.rev !outs); L reg; sx_of_bool (c15_keys_ok sp)]
   | _ -> failwith "hist: (method steps)"
 
+(* (per m faces nan pieces values): the builder's side tables from the corner longitudes, the
+   face-by-face row list, the data re-indexed with those tables, the pipeline's polygon -> face list *)
+let cmd_tables (x : sx) : sx =
+  match x with
+  | L [per; m; faces; nan; pieces; values] ->
+      let per = per_of_sx per and m = nat_of_sx m in
+      let faces = list_of_sx (list_of_sx z_of_sx) faces and nan = nan_of_sx nan in
+      let pieces = list_of_sx nat_of_sx pieces and values = list_of_sx z_of_sx values in
+      let t = c15_poly_tables per m faces nan pieces in
+      L [sx_of_list sx_of_nat t.t_am;
+         (match t.t_non_nan with None -> A "N" | Some l -> sx_of_list sx_of_nat l);
+         sx_of_list sx_of_nat t.t_c2o;
+         sx_of_list sx_of_nat (c15_rows per m faces pieces);
+         sx_of_list sx_of_z (c15_da_from_tables per t values);
+         sx_of_list sx_of_nat (c15_poly_full per m faces nan pieces values).o_faces]
+  | _ -> failwith "tables: (per m faces nan pieces values)"
+
 let commands : (string * (sx -> sx)) list = [
-  "am", cmd_am; "poly", cmd_poly; "gdf", cmd_gdf; "line", cmd_line; "hist", cmd_hist;
+  "am", cmd_am; "poly", cmd_poly; "gdf", cmd_gdf; "line", cmd_line; "hist", cmd_hist; "tables", cmd_tables;
 ]
